@@ -10,6 +10,8 @@ import shutil
 import subprocess
 import sys
 
+os.environ.setdefault("VERIF_EVIDENCE_DIR", "/dev/shm/vf_evidence_of_broken_trees")
+
 HERE = os.path.dirname(os.path.dirname(os.path.abspath(__file__)))
 TABLE = json.load(open(os.path.join(HERE, "tools", "mutants.json")))
 
